@@ -483,7 +483,7 @@ def expected_selection(name_cls, vkind, hc, hs):
     return "skip"
 
 
-def install(run, model, rule="C03.install", rule_guard="C03.new-guard"):
+def install(run, model, rule="C03.install", rule_guard="C03.new-guard", rule_doc=None):
     """After the selection: constructor choice (A.2), methods and properties are wrapped and set on the class."""
     fi = model.func("_checkers.add_invariant_checks")
     flow = get_flow(model, fi)
@@ -491,6 +491,24 @@ def install(run, model, rule="C03.install", rule_guard="C03.new-guard"):
     cls_p = ("param", fi.params[0])
     deco = model.func("_checkers._decorate_with_invariants")
     deco_new = model.func("_checkers._decorate_new_with_invariants")
+    # ---- which wrapper: the constructor form (checks after the call only) for the constructor and nothing else
+    n_kind = 0
+    for n in cfg.nodes:
+        for call, cond, aw in calls_in(n):
+            if fi_of_term(model, flow.term(call.func, n)) is not deco:
+                continue
+            b = bind_call(deco, call)
+            if not b or len(deco.params) < 2 or deco.params[1] not in b:
+                raise AnalysisError("%s: a call of %s whose `%s` argument cannot be read: %s" % (fi.qual, deco.name, deco.params[1] if len(deco.params) > 1 else "?", src_of(call, 60)))
+            flag = strip_sites(flow.term(b[deco.params[1]], n))
+            what = strip_sites(flow.term(b[deco.params[0]], n))
+            in_loop = any(isinstance(lp, (ast.For, ast.While)) and any(x is call for x in ast.walk(lp)) for lp in ast.walk(fi.node))
+            is_ctor = not in_loop
+            n_kind += 1
+            want = ("const", "True") if is_ctor else ("const", "False")
+            run.check(flag == want, rule, "%s:%s" % (fi.qual, src_of(call, 70)), "the constructor gets the constructor form of the wrapper (checks after the call), methods and property accessors the method form (checks before and after)", "`%s` is wrapped with %s=%s: %s" % (src_of(b[deco.params[0]], 30), deco.params[1], show(flag, 20), "a method or property accessor wrapped in the constructor form is not checked before the call, and the marker of an object under construction is used for it" if not is_ctor else "the constructor wrapped in the method form has the invariants evaluated before __init__ has established them"), fi.loc(n), None, first_line(n.stmt))
+    if n_kind < 2:
+        raise AnalysisError("%s: expected calls of %s for the constructor and for the members, found %d" % (fi.qual, deco.name, n_kind))
     # ---- constructor choice
     guard = None
     for n in cfg.nodes:
@@ -530,6 +548,12 @@ def install(run, model, rule="C03.install", rule_guard="C03.new-guard"):
                     why = "`%s` looks at the class's own namespace only: a class that inherits a custom __new__ (e.g. a subclass of a named tuple) gets its object.__init__ wrapped instead, and can no longer be constructed with arguments" % txt
             else:
                 raise AnalysisError("%s: unrecognised guard of the __new__ branch: %s" % (fi.qual, txt))
+        if ok:
+            inits = [strip_sites(c) for c in conj if "__init__" in show(c)]
+            obj_init = ("attr", ("builtin", "object"), "__init__")
+            if not (len(inits) == 1 and inits[0][0] == "op" and inits[0][1] in ("cmp:Eq", "cmp:Is") and obj_init in inits[0][2]):
+                ok = False
+                why = "the first condition of the __new__ branch is not `<the class's __init__> == object.__init__` (%s): __new__ is wrapped for classes that have an __init__ of their own -- the invariants are then evaluated on the result of __new__, before __init__ has established them" % ", ".join(show(c, 60) for c in inits)
         run.check(ok, rule_guard, fi.qual, "__new__ is wrapped iff __init__ is object.__init__ and the class has a __new__ other than object.__new__ (inherited ones included)", why, fi.loc(n), None, txt)
         # what the two arms do
         arms = {}
@@ -633,6 +657,38 @@ def install(run, model, rule="C03.install", rule_guard="C03.new-guard"):
                     w = _wrapped_of(v, binds) if v is not None else None
                     if not (w is not None and w.endswith("." + acc)):
                         bad = "the property accessor `%s` is not wrapped when present (%s)" % (acc, src_of(v) if v is not None else "missing")
+        if uses_property and rule_doc is not None:
+            # the replacement property keeps the documentation of the one it replaces (``property(..., doc=prop.__doc__)``:
+            # without it the text is taken from the getter, or lost)
+            pcalls_d = [s_ for b_ in st.body for s_ in ast.walk(b_) if isinstance(s_, ast.Call) and isinstance(s_.func, ast.Name) and s_.func.id == "property"]
+            for pc in pcalls_d:
+                docs = [kw.value for kw in pc.keywords if kw.arg == "doc"] + list(pc.args[3:4])
+                okd = bool(docs) and isinstance(docs[0], ast.Attribute) and docs[0].attr == "__doc__"
+                if not okd and docs and isinstance(docs[0], ast.Name):
+                    okd = any(isinstance(x, ast.Assign) and any(isinstance(t_, ast.Name) and t_.id == docs[0].id for t_ in x.targets) and isinstance(x.value, ast.Attribute) and x.value.attr == "__doc__" for b_ in st.body for x in ast.walk(b_))
+                run.check(okd, rule_doc, "%s:property-doc" % fi.qual, "the re-created property carries the documentation of the property it replaces", "the property that replaces the user's is built without `doc=<property>.__doc__`: its documentation is taken from the getter or lost (`property(fget, doc=...)`, `help()` and documentation tools see a different text on a class with invariants)", fi.loc(n), None, first_line(pc))
+        if uses_property and bad is None:
+            # the "something was wrapped" test in front of the store looks at every accessor handed to property(...): an
+            # accessor left out is not installed when it alone is new (``@Base.value.setter`` in a subclass)
+            for g_ in guards:
+                if not any(any(x is s_ for x in ast.walk(g_)) for s_ in sets):
+                    continue
+                parts = g_.test.values if isinstance(g_.test, ast.BoolOp) else [g_.test]
+                looked = set()
+                for c in parts:
+                    for side in (c.left, c.comparators[0]):
+                        w = _wrapped_of(side, binds)
+                        if w is not None:
+                            looked.add(w)
+                handed = set()
+                for pc in pcalls:
+                    for kw in pc.keywords:
+                        if kw.arg in ("fget", "fset", "fdel"):
+                            w = _wrapped_of(kw.value, binds)
+                            if w is not None:
+                                handed.add(w)
+                if handed - looked:
+                    bad = "the new property is set on the class only if %s changed by wrapping, but %s is wrapped as well: a class that brings only that accessor (`@Base.value.setter` / `.deleter` in a subclass) keeps it unwrapped" % (", ".join("`%s`" % x for x in sorted(looked)), ", ".join("`%s`" % x for x in sorted(handed - looked)))
         run.check(bad is None, rule, "%s:%s" % (fi.qual, kind), "every selected member is wrapped and set on the class; no skip inside the loop other than for members returned unchanged", bad or "", fi.loc(n), None, first_line(st))
         # a member that came back unchanged from the wrapping (it was decorated with a base class and is inherited as it
         # is) is not set on the class: copying it into the class's own namespace pins today's resolution of the name and
@@ -715,6 +771,14 @@ def marker_agreement(run, model, rule="C03.wrapped-once"):
                     read.add(repr(sub.attr))
     if not read:
         raise AnalysisError("%s: no attribute look-up by a constant name found (how is a wrapper recognised?)" % reader.qual)
+    # ... and finding the mark makes the answer "yes": some returned value is True (or is computed from the look-up)
+    answers = []
+    for n in rflow.cfg.nodes:
+        if n.kind == "return" and n.ast is not None:
+            t = strip_sites(rflow.term(n.ast, n))
+            answers.extend(t[1] if t[0] == "phi" else (t,))
+    yes = [a for a in answers if a[0] != "const" or a[1] not in ("False", "None", "0")]
+    run.check(bool(yes), rule, reader.qual, "answers True when a function of the decorator stack carries the mark", "every returned value is a constant \"no\" (%s): a wrapper is never recognised and is wrapped again by every later decoration of the class or of a subclass -- the invariants then run once per layer" % ", ".join(show(a, 40) for a in answers[:4]), reader.loc())
     for qual in ("_checkers._decorate_with_invariants", "_checkers._decorate_new_with_invariants"):
         fi = model.func(qual)
         flow = get_flow(model, fi)
@@ -734,3 +798,39 @@ def marker_agreement(run, model, rule="C03.wrapped-once"):
         common = set(written) & read
         where = list(written.values())[0] if written else None
         run.check(bool(common), rule, fi.qual, "marks its wrapper with %s, which %s looks for" % (", ".join(sorted(common)), reader.name), "the wrapper is marked with %s, but %s looks for %s: the wrapper is not recognised and is wrapped again by every later decoration of the class or of a subclass -- the invariants then run once per layer" % (", ".join(sorted(written)) or "nothing", reader.name, ", ".join(sorted(read))), fi.loc(where) if where is not None else fi.loc(), None, first_line(where.stmt) if where is not None else None)
+
+
+def find_self(run, model, rule="C03.find-self"):
+    """_find_self: the receiver is the positional argument at the position of ``self`` whenever there is one -- whatever
+    the keywords hold (``def render(self, /, **context)`` called as ``other.render(self=this)`` runs on ``other``) --
+    and the keyword ``self`` only when the positional arguments do not reach that far."""
+    from .. import tables
+
+    fi = model.func("_checkers._find_self")
+    flow = get_flow(model, fi)
+    run.saw(flow)
+    names = fi.params
+    if len(names) < 3:
+        raise AnalysisError("%s: expected (param_names, args, kwargs), found %s" % (fi.qual, names))
+    args_p, kwargs_p = ("param", names[1]), ("param", names[2])
+    ps = tables.paths(flow)
+    n_pos = n_kw = 0
+    bad = None
+    for p in ps:
+        if p.outcome is None or p.outcome[0] != "return":
+            continue
+        out = strip_sites(p.outcome[1])
+        mentions = lambda par: any(any(s_ == par for s_ in subterms(strip_sites(t))) for t, v, n in p.decisions)
+        if out[0] == "idx" and out[1] == args_p:
+            n_pos += 1
+            if any(s_ == kwargs_p for s_ in subterms(out[2])) or mentions(kwargs_p):
+                bad = bad or (p.outcome[2], "the positional receiver is returned only under a condition on the keywords (`%s`): a keyword named `self` (it can only have landed in `**kwargs` of a method whose receiver is positional-only) takes the place of the object the method was called on, and the marker test and the invariants run on another object" % first_line(p.decisions[-1][2].stmt if p.decisions else p.outcome[2].stmt))
+        elif out[0] == "idx" and out[1] == kwargs_p and out[2] == ("const", "'self'"):
+            n_kw += 1
+            if not mentions(args_p) and not mentions(("param", names[0])):
+                bad = bad or (p.outcome[2], "the keyword `self` is returned on a path where the positional arguments have not been found too short: the object the method was called on is ignored")
+        else:
+            bad = bad or (p.outcome[2], "returns %s, expected args[<position of self>] or kwargs['self']" % show(out, 60))
+    if bad is None and (n_pos < 1 or n_kw < 1):
+        bad = (flow.cfg.entry, "expected a path returning the positional receiver and one returning the keyword receiver, found %d and %d" % (n_pos, n_kw))
+    run.check(bad is None, rule, fi.qual, "positional receiver first, whatever the keywords hold; keyword receiver only when the positional arguments are too short", bad[1] if bad else "", fi.loc(bad[0]) if bad else fi.loc(), None, first_line(bad[0].stmt) if bad and getattr(bad[0], "stmt", None) is not None else None)
